@@ -12,9 +12,17 @@ Mirrored Go code (as it is after the `fix:` commits):
 * `internal/target/smtp/smtp_downstream.go`: `Downstream.Start` (connect + `MAIL`), `AddRcpt`,
   `Body` (target.smtp), `BodyNonAtomic` (target.lmtp: one status per reply, the I/O error for
   the recipients left without a reply), `Commit` = `smtpconn.C.Close` (returns nil whatever `QUIT`
-  does);
+  does), `Abort` = `smtpconn.C.Close`;
 * `internal/smtpconn/smtpconn.go`: `C.Rcpt` (local 553 for an unconvertible address before anything
-  is sent; `rcpts` grows only on 250), `C.Data`, `C.Close`.
+  is sent; `rcpts` grows only on 250), `C.Data` / `C.LMTPData` (header, then `io.Copy` of the body
+  reader, then the final dot: a failing reader ends them before the final dot), `C.Close` (a
+  connection left in the middle of the message data is dropped, never sent another command).
+
+The spooled body is an input of the attempt as well: `bodyOpenF` = `buffer.Buffer.Open` fails (all
+three targets open the body before the `DATA` command; target.remote once per connection),
+`bodyReadF` = the reader fails before EOF (after any number of octets, also after the last one).
+Either way the final dot is never sent, the hop acknowledges nothing, every accepted recipient gets
+the unclassified I/O error.
 
 The next hop (harness `vc01hop`) is scripted per attempt.  A `Fault` is what the client sees for
 the command that hit it (`cls`) and whether the session is unusable afterwards (`dies`: 421 and
@@ -63,6 +71,8 @@ structure Script where
   dataEnd  : Option Fault     -- answer after the final dot (SMTP)
   lmtpSt   : Addr → Option FCls   -- LMTP per-recipient answer after the final dot
   lmtpDrop : Option Nat       -- LMTP: number of answers sent before the connection is dropped
+  bodyOpenF : Bool := false   -- the spooled body cannot be opened in this attempt
+  bodyReadF : Bool := false   -- the body reader fails before EOF in this attempt
 
 /-- One client connection (`smtpconn.C`) as the target sees it. -/
 structure Sess where
@@ -133,21 +143,25 @@ def lmtpWalk (s : Script) : Option Nat → List Addr → List (Addr × Cls) × L
 
 /-- Result of DATA on a connection for the whole transaction (SMTP). -/
 def dataCls (s : Script) (c : Sess) : Cls :=
-  if !c.alive then .unspec
+  if s.bodyOpenF || !c.alive then .unspec
   else match s.dataCmd with
     | some f => f.toCls
-    | none => match s.dataEnd with
-      | some f => f.cls.toCls
-      | none => .ok
+    | none =>
+      if s.bodyReadF then .unspec
+      else match s.dataEnd with
+        | some f => f.cls.toCls
+        | none => .ok
 
 /-- The DATA phase on one connection: status per accepted recipient, acknowledged recipients. -/
 def dataPhase (tk : TKind) (s : Script) (c : Sess) : List (Addr × Cls) × List Addr :=
   match tk with
   | .lmtp =>
-    if !c.alive then (c.acc.map (fun r => (r, Cls.unspec)), [])
+    if s.bodyOpenF || !c.alive then (c.acc.map (fun r => (r, Cls.unspec)), [])
     else match s.dataCmd with
       | some f => (c.acc.map (fun r => (r, f.toCls)), [])
-      | none => lmtpWalk s s.lmtpDrop c.acc
+      | none =>
+        if s.bodyReadF then (c.acc.map (fun r => (r, Cls.unspec)), [])
+        else lmtpWalk s s.lmtpDrop c.acc
   | _ =>
     let cl := dataCls s c
     (c.acc.map (fun r => (r, cl)), if cl.isOk then c.acc else [])
